@@ -9,7 +9,7 @@
 use crate::verif_models::*;
 use crate::verif_spec::*;
 
-// @ob id=hex.decode_1.eq_model props=C05,C04,C07,C17 rows=plain,lowmem-a,lowmem-b,lowmem-c quick=plain quick.C07=plain,lowmem-a,lowmem-b,lowmem-c kind=HC fn=parse::hex_str::{decode_1,decode_rev_1} domain="all inputs of length 0..=3 (every byte value)"
+// @ob id=hex.decode_1.eq_model props=C05,C04,C07,C17 rows=plain,lowmem-a,lowmem-b,lowmem-c quick=plain,lowmem-a,lowmem-b,lowmem-c kind=HC fn=parse::hex_str::{decode_1,decode_rev_1} domain="all inputs of length 0..=3 (every byte value)"
 #[kani::proof]
 fn ob_decode_1() {
     let buf: [u8; 3] = kani::any();
@@ -40,7 +40,7 @@ fn check_decode_array<const N: usize, const M: usize>(rev: bool) {
     kani::cover!(r1);
     kani::cover!(!r1 && n == 2 * N);
 }
-// @ob id=hex.decode_rev_array.eq_model props=C05,C04,C07,C17 rows=plain,lowmem-a,lowmem-b,lowmem-c quick=plain quick.C07=plain,lowmem-a,lowmem-b,lowmem-c kind=HC fn=parse::hex_str::decode_rev_array<{1,3}> domain="all inputs of length 0..=2N+2"
+// @ob id=hex.decode_rev_array.eq_model props=C05,C04,C07,C17 rows=plain,lowmem-a,lowmem-b,lowmem-c quick=plain,lowmem-a,lowmem-b,lowmem-c kind=HC fn=parse::hex_str::decode_rev_array<{1,3}> domain="all inputs of length 0..=2N+2"
 #[kani::proof]
 #[kani::unwind(5)]
 fn ob_decode_rev_array() { check_decode_array::<1, 4>(true); check_decode_array::<3, 8>(true); }
@@ -57,7 +57,7 @@ fn ob_decode_array_32() { check_decode_array::<32, 66>(false); }
 #[kani::unwind(66)]
 fn ob_decode_array_64() { check_decode_array::<64, 130>(false); }
 
-// @ob id=hex.encode_rev_1.eq_model props=C04,C14,C07,C17 rows=plain,lowmem-a,lowmem-b quick=plain quick.C07=plain,lowmem-a,lowmem-b kind=HC fn=parse::hex_str::encode_rev_1 domain="all values x destination length 2..=6 with arbitrary content"
+// @ob id=hex.encode_rev_1.eq_model props=C04,C14,C07,C17 rows=plain,lowmem-a,lowmem-b quick=plain,lowmem-a,lowmem-b kind=HC fn=parse::hex_str::encode_rev_1 domain="all values x destination length 2..=6 with arbitrary content"
 #[kani::proof]
 fn ob_encode_rev_1() {
     let mut a: [u8; 6] = kani::any();
@@ -102,7 +102,7 @@ fn encode_array_real<const N: usize>(dst: &mut [u8], src: &[u8; N]) { super::enc
 #[cfg(feature = "opt-simd-convert-hex")]
 fn encode_array_real<const N: usize>(dst: &mut [u8], src: &[u8; N]) { model_encode_array(dst, src) }
 
-// @ob id=hex.encode_rev_array.eq_model props=C04,C14,C07,C17 rows=plain,lowmem-a,lowmem-b quick=plain quick.C07=plain,lowmem-a,lowmem-b kind=HC fn=parse::hex_str::encode_rev_array<{1,3}> domain="all sources x destination length 2N..=2N+8 with arbitrary content"
+// @ob id=hex.encode_rev_array.eq_model props=C04,C14,C07,C17 rows=plain,lowmem-a,lowmem-b quick=plain,lowmem-a,lowmem-b kind=HC fn=parse::hex_str::encode_rev_array<{1,3}> domain="all sources x destination length 2N..=2N+8 with arbitrary content"
 #[kani::proof]
 #[kani::unwind(10)]
 fn ob_encode_rev_array() { check_encode_array::<1, 10>(true); check_encode_array::<3, 14>(true); }
